@@ -94,7 +94,47 @@ func (w *world) fixedUnsentFastack(t uint32) []string {
 	return tr
 }
 
+// fixedFragmentLimit (regression corpus): message mode at the 255-fragment limit.  A message of 255
+// fragments is accepted and must come out with its boundaries; one of 256 fragments must be
+// refused (the fragment counter is a uint8 and PeekSize computes frg+1 in uint8).
+func (w *world) fixedFragmentLimit() {
+	w.begin(cfg{bigMsg: true}, 11)
+	w.stream = false
+	for _, e := range []*endpoint{w.a, w.b} {
+		w.setNoDelay(e, 1, 10, 2, 1)
+		w.setWnd(e, 600, 600)
+		w.setMtu(e, 25) // mss = 1
+		w.setStream(e, false)
+	}
+	w.now = 0
+	w.send(w.a, w.payload(w.a, 255))
+	w.send(w.a, w.payload(w.a, 256)) // must be refused
+	w.send(w.a, w.payload(w.a, 3))
+	for i := 0; i < 40 && !w.aborted; i++ {
+		w.flush(w.a, true)
+		for len(w.netAB) > 0 && !w.aborted {
+			p := w.netAB[0]
+			w.netAB = w.netAB[1:]
+			w.input(w.b, p, true, false)
+			if i%2 == 0 { // read while fragments are still arriving
+				w.recv(w.b, 4096)
+			}
+		}
+		w.flush(w.b, true)
+		for len(w.netBA) > 0 && !w.aborted {
+			p := w.netBA[0]
+			w.netBA = w.netBA[1:]
+			w.input(w.a, p, true, false)
+		}
+		w.now += 10
+	}
+	w.recvAll(w.b)
+	w.finalOracle()
+	w.end()
+}
+
 func (w *world) fixedAll() {
+	w.fixedFragmentLimit()
 	w.fixedFastRecovery()
 	w.fixedBigMessage()
 	a := w.fixedUnsentFastack(0)
